@@ -19,7 +19,7 @@ ITEMS = {
     "plainiter": ["%s-0", "%s-1"],
 }
 LETTERS = [("next", 0), ("next", 1), ("close", 0), ("close", 1), ("release", 0), ("release", 1), ("reconnect", 0), ("reconnect", 1),
-           ("hk",), ("tick", 10), ("tick", 40), ("ping", 0), ("ping", 1), ("break", 0), ("break", 1)]
+           ("hk",), ("tick", 10), ("tick", 25), ("tick", 40), ("ping", 0), ("ping", 1), ("break", 0), ("break", 1)]
 
 
 class MStream:
@@ -75,7 +75,11 @@ def play(cfg, hist, V, st):
     from vf.syncworld import SyncWorld
     from vf import targets, sched as S
     from Pyro5 import client, errors
+    from Pyro5.callcontext import current_context
+    import uuid
     S.TimeShim.fallback_clock = 1000.0
+    # a client may give all its requests one correlation id (a server method calling on to another server inherits one, too)
+    current_context.correlation_id = uuid.UUID(int=0xC10) if cfg.get("corr") else None
     w = SyncWorld(ITER_STREAMING=cfg["streaming"], ITER_STREAM_LIFETIME=float(cfg["lifetime"]), ITER_STREAM_LINGER=float(cfg["linger"]))
     ok = True
     iters = []
@@ -254,6 +258,7 @@ def play(cfg, hist, V, st):
             if it is not None:
                 it.proxy = None      # no close_stream traffic from __del__
         w.close()
+        current_context.correlation_id = None
 
 
 def expand_task(unit):
@@ -294,6 +299,14 @@ def configs(quick):
             for linger in (0, 30):
                 out.append({"streaming": True, "lifetime": lifetime, "linger": linger, "streams": ss, "nproxies": 1 + max(o for _, o in ss)})
     out.append({"streaming": False, "lifetime": 0, "linger": 30, "streams": [("three", 0)], "nproxies": 1})
+    # non-initial start states: the search starts behind a fixed prefix (one of two stream-owning connections has already gone, some
+    # time ago), so that "the other one goes later, then the first one's linger period passes" is within the depth bound
+    for ss in ([("three", 0), ("raises1", 1)], [("plainiter", 0), ("three", 1)])[:1 if quick else 2]:
+        for first in ("release", "break"):
+            out.append({"streaming": True, "lifetime": 0, "linger": 30, "streams": ss, "nproxies": 2, "prefix": [(first, 0), ("tick", 10)]})
+    # all requests of the client carry one correlation id
+    for ss in ([("three", 0), ("three", 0)], [("three", 0), ("raises1", 1)]):
+        out.append({"streaming": True, "lifetime": 0, "linger": 30, "streams": ss, "nproxies": 1 + max(o for _, o in ss), "corr": True})
     return out
 
 
@@ -460,8 +473,8 @@ def run(ctx):
     total = Stats()
     cfgs = configs(quick)
     seen = set()
-    frontier = {i: [[]] for i in range(len(cfgs))}
-    cap = 1500 if quick else 12000
+    frontier = {i: [[tuple(x) for x in cfgs[i].get("prefix", [])]] for i in range(len(cfgs))}
+    cap = 10 ** 9 if quick else 10 ** 9
     capped = False
     for level in range(depth + 1):
         units = []
@@ -501,7 +514,7 @@ def run(ctx):
     cov = coverage_from_stats(
         total,
         rule="(1) BFS (states deduplicated by the model state and the server-side pull counters) over histories of next/close/release/reconnect/connection reset under the proxy/ping/housekeeping/clock+10/"
-             "clock+40 steps to depth %d on 1-2 streams from 1-2 proxies, stream kinds {three items, empty, raising at index 1, plain iterator}, ITER_STREAM_LIFETIME {0,5} x "
+             "clock+25/clock+40 steps to depth %d (behind a fixed two-step prefix in some configurations; with and without a client-chosen correlation id) on 1-2 streams from 1-2 proxies, stream kinds {three items, empty, raising at index 1, plain iterator}, ITER_STREAM_LIFETIME {0,5} x "
              "ITER_STREAM_LINGER {0,30}, plus streaming disabled, on a real Proxy/Daemon pair with a virtual clock; every delivered item/StopIteration/exception/error "
              "and the size of the server's stream table after every step are compared with a list model; (2) every schedule (line granularity, preemption bound 2-3) of "
              "fetch / second fetch / close / disconnect / housekeeping racing on one stream table: no internal error, outcome equal to that of some serial order; "
